@@ -159,6 +159,18 @@ class RuleGen:
                 caps.append(None)
             if n[0] == "lib":
                 t = self.text_for(n[1])
+                flt = n[2][1] if n[2] is not None else None
+                if flt is not None and flt[0] == "nullIf" and n[1] != "integer":
+                    # texts equal to / extending / one short of the null value
+                    v = flt[1]
+                    fits = n[1] in ("notSpace", "data") or all(ch.isalnum() or ch == "_" for ch in v)
+                    c = self.rng.random()
+                    if fits and c < 0.3:
+                        t = v
+                    elif fits and c < 0.6:
+                        t = v + self.rng.choice(["a", "0", "_", v])
+                    elif fits and c < 0.7 and len(v) > 1:
+                        t = v[:-1]
                 implicit = [("integer",)] if n[1] == "integer" else []
             else:
                 t = self.instantiate(self.aliases[n[1]], caps)
@@ -462,6 +474,8 @@ def vrl_consistent(o):
 
 
 def to_coq(case, out):
+    if out.get("bad_case"):
+        return "mkCase [] [] [] INoMatch XNone"
     if not vrl_consistent(out):
         raise ValueError("parse_groks (VRL) and parse_grok (API) disagree: %r" % (out,))
     return "mkCase [%s] [%s] %s %s %s" % (
